@@ -360,13 +360,30 @@ impl LWWMembershipState {
         states
     }
 
+    /// Severity rank used only to break exact (incarnation, timestamp) ties in `merge`.
+    const fn health_severity(health: NodeHealth) -> u8 {
+        match health {
+            NodeHealth::Unknown => 0,
+            NodeHealth::Healthy => 1,
+            NodeHealth::Degraded => 2,
+            NodeHealth::Failed => 3,
+        }
+    }
+
     /// Merge incoming states. Returns list of node IDs that changed.
     pub fn merge(&mut self, incoming: &[GossipNodeState]) -> Vec<NodeId> {
         let mut changed = Vec::new();
 
         for state in incoming {
             let should_update = self.states.get(&state.node_id).map_or(true, |existing| {
-                let supersedes = state.supersedes(existing);
+                // Lamport timestamps of different reporters can coincide. On an exact
+                // (incarnation, timestamp) tie the more pessimistic health wins, so the
+                // merged view does not depend on the order in which updates arrive.
+                let supersedes = state.supersedes(existing)
+                    || (state.incarnation == existing.incarnation
+                        && state.timestamp == existing.timestamp
+                        && Self::health_severity(state.health)
+                            > Self::health_severity(existing.health));
                 if supersedes {
                     tracing::debug!(
                         node_id = %state.node_id,
